@@ -22,7 +22,7 @@ def run(ctx):
     res.rules.update({k: KIND_RULES[k] for k in ("C-SIG",)})
     res.rules.update({
         "E-FIXED": "stores to a model parameter in fit() are dominated by its 'was not supplied' flag; the initialiser runs only on that branch",
-        "E-NOINPLACE": "no function reachable from fit() stores to self.u / self.w or updates an alias of them in place",
+        "E-NOINPLACE": "no function reachable from fit() stores to self.u / self.w, updates an alias of them in place, or updates in place an array it received (parameter / value returned by a self-method)",
     })
     v = ctx.view("HyMMSBM.fit")
     fi = v.fi
@@ -97,6 +97,24 @@ def run(ctx):
                 for kw in n.keywords:
                     if kw.arg == "out" and (any(is_self_attr(kw.value, p) for p in PARAMS) or (isinstance(kw.value, ast.Name) and kw.value.id in alias)):
                         bad.append((n, "out= writes into the model parameter"))
+        # helpers of the EM loop are pure functions of (u, w, data): an in-place update of an array that was not
+        # created in the helper itself (a parameter, or something a self-method handed back) corrupts what the caller shares
+        if g.module.name.startswith("hypergraphx.communities.hy_mmsbm"):
+            pnames = {a.arg for a in g.params} - {"self"}
+            from_calls = set()
+            for n in walk_no_nested(g.node):
+                if isinstance(n, ast.Assign) and isinstance(n.value, ast.Call) and isinstance(n.value.func, ast.Attribute) and is_self_attr(n.value.func):
+                    for t in n.targets:
+                        for x in ast.walk(t):
+                            if isinstance(x, ast.Name):
+                                from_calls.add(x.id)
+            for n in walk_no_nested(g.node):
+                if isinstance(n, ast.AugAssign) and isinstance(n.target, (ast.Name, ast.Subscript)):
+                    base = n.target.value if isinstance(n.target, ast.Subscript) else n.target
+                    if isinstance(base, ast.Name) and base.id in (pnames | from_calls):
+                        bad.append((n, f"in-place update of `{base.id}`, which the caller (or another EM iteration) shares"))
+                if isinstance(n, ast.Assign) and isinstance(n.targets[0], ast.Subscript) and isinstance(n.targets[0].value, ast.Name) and n.targets[0].value.id in pnames:
+                    bad.append((n, f"element store into the parameter `{n.targets[0].value.id}`"))
         names.append(g.short)
         if bad:
             for n, why in bad:
